@@ -12,6 +12,17 @@ Monitors (the property itself, evaluated on what the implementation did):
               through GRPCError; nil stays nil
   transparent Propose/Read through the facade return what the local call returns in the same state (value / bytes),
               leave the same state behind, and turn the local call's error into the table's code
+Round-2 dimensions:
+  re-host     shards are stopped (StopShard; data removed / kept) and hosted again as a new replica of any of the three
+              types, or restarted, once or twice, while eight facade objects that asked for nothing / only the other shards /
+              only that shard / everything before the stop (each with and without a query during the stopped phase) and a
+              fresh one keep being queried.  The kind monitor is the same (answer = type of the shard AS IT RUNS NOW).
+              A wrong answer that the never-invalidated cache dictates for a shard id this very facade object was
+              successfully asked for during an EARLIER incarnation is listed under suspect_stale_after_rehost /
+              suspect_stale_after_stop in the evidence (coordinator decides); every other wrong answer is a VIOLATION.
+  error types the error alphabet is not only the dragonboat/context values: wrapped, joined, pointer (nil too), struct,
+              slice, map, struct holding slice/map/func/interface, array, string, int, embedding, status-typed errors and
+              odd texts go through grpcError/GRPCError, and through Read as the error a state machine's Lookup returns.
 """
 import itertools, json, os, re
 from vlib import *
@@ -76,11 +87,14 @@ class Block:
         self.lines.append((text, meta))
 
     def describe(self):
-        return {"hosting": {str(s): TNAME[t] for s, t in sorted(self.types.items())},
-                "start_order": self.order}
+        d = {"hosting": {str(s): TNAME[t] for s, t in sorted(self.types.items())},
+             "start_order": self.order}
+        if getattr(self, "rehost", None):
+            d["stop_and_rehost"] = self.rehost
+        return d
 
 
-def build_block(ck, types, order, qperms, with_errs, rng):
+def build_block(ck, types, order, qperms, with_errs, rng, NONHOSTED=NONHOSTED):
     b = Block(types, order)
     ids = sorted(types)
     allq = ids + [NONHOSTED]
@@ -134,6 +148,140 @@ def build_block(ck, types, order, qperms, with_errs, rng):
     return b
 
 
+N_ALPHABET = 46          # len(vfErrAlphabet()) in the executor; cross-checked against the ERRS output
+
+
+def add_lookup_errs(b, shards, ks):
+    for s in shards:
+        for k in ks:
+            for path in "fl":
+                b.add("E T %d %s %d" % (s, path, k), kind="E", api="T", shard=s, path=path, k=k)
+
+
+def build_rehost_block(types, X, plan, rng, lookup_ks=(), NONHOSTED=NONHOSTED):
+    """one NodeHost on which shard X is stopped and hosted again, once per (mode, new type) of plan"""
+    ids = sorted(types)
+    others = [s for s in ids if s != X]
+    b = Block(types, ids)
+    b.rehost = {"shard": X, "plan": [{"stop_mode": {"d": "data removed, new replica", "n": "data kept, new replica",
+                                                   "k": "restart of the same replica"}[m], "then_hosted_as": TNAME[t]}
+                                     for (m, t) in plan]}
+    b.add("NH")
+    for s in ids:
+        b.add("S %d %d" % (s, types[s]), kind="S", shard=s, typ=types[s])
+    # facade objects by what they were asked before the stop; suffix m: also asked during the stopped phase
+    groups = [("p0", []), ("pO", others + [NONHOSTED]), ("pX", [X]), ("pA", others + [X, NONHOSTED])]
+    apis = []
+    for g, qs in groups:
+        for suffix in ("", "m"):
+            a = g + suffix
+            apis.append(a)
+            b.add("A " + a)
+            for q in qs:
+                b.add("Q %s %d" % (a, q), kind="Q", api=a, shard=q)
+    b.add("A T")
+    for (op, path) in (("P", "f"), ("P", "l"), ("R", "f")):
+        arg = hexbytes(rng)
+        b.add("%s T %d %s %s" % (op, X, path, arg), kind=op, api="T", shard=X, path=path, arg=arg)
+    for ci, (mode, nt) in enumerate(plan):
+        b.add("K %d %s" % (X, mode), kind="K", shard=X, mode=mode)
+        for a in apis:
+            if a.endswith("m"):
+                b.add("Q %s %d" % (a, X), kind="Q", api=a, shard=X)
+                if others:
+                    b.add("Q %s %d" % (a, others[ci % len(others)]), kind="Q", api=a, shard=others[ci % len(others)])
+        b.add("S %d %d" % (X, nt), kind="S", shard=X, typ=nt)
+        fresh = "pF%d" % ci
+        b.add("A " + fresh)
+        now = apis + [fresh]
+        for a in now:
+            b.add("Q %s %d" % (a, X), kind="Q", api=a, shard=X)
+        for a in now:
+            for q in others + [NONHOSTED]:
+                b.add("Q %s %d" % (a, q), kind="Q", api=a, shard=q)
+        for a in now:
+            b.add("Q %s %d" % (a, X), kind="Q", api=a, shard=X)
+        apis = now
+        for (op, path) in (("P", "f"), ("P", "l"), ("R", "f"), ("R", "l"), ("P", "f")):
+            arg = hexbytes(rng)
+            b.add("%s T %d %s %s" % (op, X, path, arg), kind=op, api="T", shard=X, path=path, arg=arg)
+    if lookup_ks:
+        add_lookup_errs(b, ids, lookup_ks)
+    b.add("END")
+    return b
+
+
+def rehost_plans(orig, two_cycles=True):
+    """stop modes x new types for a shard of type orig; the second cycle goes back to the first type (or on to another)"""
+    plans = []
+    for mode in "dn":
+        for nt in (1, 2, 3):
+            p = [(mode, nt)]
+            if two_cycles:
+                p.append(("n" if mode == "d" else "d", orig if nt != orig else 1 + orig % 3))
+            plans.append(p)
+    plans.append([("k", orig), ("d", 1 + (orig + 1) % 3)] if two_cycles else [("k", orig)])
+    return plans
+
+
+def gen_rehost_blocks(ck):
+    rng = ck.rng
+    blocks = []
+    nfull = 2 if ck.tier == "quick" else 3
+    i = 0
+    for n in range(1, nfull + 1):
+        ids = list(range(1, n + 1))
+        for tys in itertools.product((1, 2, 3), repeat=n):
+            types = dict(zip(ids, tys))
+            for X in ids:
+                for plan in rehost_plans(types[X]):
+                    # every value of the error alphabet comes out of some state machine's Lookup, spread over the blocks
+                    ks = [(i * 3 + j) % N_ALPHABET for j in range(3)]
+                    blocks.append(build_rehost_block(types, X, plan, rng, ks))
+                    i += 1
+    # larger NodeHosts / longer plans: PRNG sample
+    for _ in range(40 if ck.tier == "quick" else 400):
+        n = rng.choice((3, 3, 4)) if ck.tier == "quick" else rng.choice((4, 4, 5))
+        # (shard ids also outside the small alphabet: colliding modulo 2^32 / 2^16 / 100000)
+        stride = rng.choice((1, 1, 1 << 32, 1 << 16, 100000))
+        ids = [1 + j * stride for j in range(n)]
+        types = {s: rng.choice((1, 2, 3)) for s in ids}
+        X = rng.choice(ids)
+        plan, cur = [], types[X]
+        for _c in range(rng.choice((1, 2, 3))):
+            mode = rng.choice("ddnnk")
+            nt = cur if mode == "k" else rng.choice((1, 2, 3))
+            plan.append((mode, nt))
+            cur = nt
+        blocks.append(build_rehost_block(types, X, plan, rng, [rng.randrange(N_ALPHABET)], NONHOSTED=1 + n * stride if stride > 1 else NONHOSTED))
+    return blocks
+
+
+def gen_lookup_err_blocks(ck):
+    """every value of the error alphabet as the Lookup error of a state machine of every type, facade vs local Read"""
+    blocks = []
+    for typ in (1, 2, 3):
+        b = Block({1: typ}, [1])
+        b.add("NH")
+        b.add("S 1 %d" % typ, kind="S", shard=1, typ=typ)
+        b.add("A T")
+        add_lookup_errs(b, [1], range(N_ALPHABET))
+        # and the shard still answers afterwards
+        b.add("R T 1 f 7a", kind="R", api="T", shard=1, path="f", arg="7a")
+        b.add("END")
+        blocks.append(b)
+    return blocks
+
+
+def stale_dictates(entry_kind, hosted, s):
+    """what a GetSession decided from a cache entry looks like from outside (dragonboat's reaction to the decision)"""
+    if entry_kind == "noop":
+        return "noop"
+    if s not in hosted:
+        return "err"
+    return "panic" if hosted[s] == 3 else "tracked"
+
+
 def gen_blocks(ck):
     rng = ck.rng
     nmax = 3 if ck.tier == "quick" else 4
@@ -159,6 +307,16 @@ def gen_blocks(ck):
             order = ids[:]
             rng.shuffle(order)
             blocks.append(build_block(ck, dict(zip(ids, tys)), order, rng.sample(allperms, 30), False, rng))
+    # shard ids outside the small alphabet: hosted / non-hosted ids that collide modulo 2^32, 2^16, 100000, and the top of the range
+    M = 1 << 64
+    for (ids, nh) in (([1, 1 + (1 << 32)], 1 + (1 << 33)), ([1 + (1 << 32), 1 + (1 << 16)], 1), ([100001, 1], 200001),
+                      ([M - 1, 1 << 63], M - 2)):
+        allperms = list(itertools.permutations(ids + [nh]))
+        for tys in ((1, 3), (3, 1), (3, 2), (2, 2) if ck.tier != "quick" else (3, 3)):
+            for order in itertools.permutations(ids):
+                blocks.append(build_block(ck, dict(zip(ids, tys)), order, allperms, False, rng, NONHOSTED=nh))
+    blocks += gen_rehost_blocks(ck)
+    blocks += gen_lookup_err_blocks(ck)
     return blocks
 
 
@@ -242,7 +400,15 @@ def run(ck):
                       "facade/local Propose/Read calls with PRNG payloads; error-path calls (no deadline, past deadline, too big, invalid "
                       "session, cancelled, unknown shard, closed NodeHost) on both paths in the n<=2 and every 8th configuration; session "
                       "conversions on all-distinct / boundary field values; grpcError on every exported dragonboat error + context errors + "
-                      "5 foreign errors, twice; two NodeHosts behind a real gRPC listener. A case = one facade object's query sequence, one "
+                      "5 foreign errors + an alphabet of 46 error values of arbitrary dynamic types (wrapped, joined, pointer, nil pointer, struct, "
+                      "slice, map, struct holding slice/map/func/interface, array, string, int, embedding, status, odd texts), twice; every "
+                      "alphabet value also as the Lookup error of a regular / concurrent / on-disk state machine, Read through the facade vs "
+                      "local SyncRead; stop / re-host configurations: every type assignment of n<=2 (quick) / n<=3 (thorough) shards x every "
+                      "shard X x 7 plans (stop with data removed / kept + new replica of each of the 3 types, then a second stop and re-host; "
+                      "restart of the same replica), with 8 long-lived facade objects that asked for nothing / the other shards / X / "
+                      "everything before the stop (with and without queries during the stopped phase) + a fresh object per incarnation, "
+                      "all queried for X first, the others, X again after every re-host, + a PRNG sample of larger NodeHosts and 1-3 cycle "
+                      "plans; two NodeHosts behind a real gRPC listener. A case = one facade object's query sequence, one "
                       "call pair, one conversion, one error value; distinct by md5 of its canonical text; all are non-trivial.")
     import time
     t0 = time.time()
@@ -311,6 +477,10 @@ def run(ck):
     stats = {"Q": 0, "Q_tracked": 0, "Q_noop": 0, "Q_err": 0, "Q_panic": 0, "P": 0, "R": 0, "X": 0, "closed_nodehost_calls": 0}
     items = []          # (coq term, info)
     other_ix = {}
+    suspects = {"rehost": [], "stop": []}     # stale answers for a shard id the facade object was asked for in an earlier incarnation
+    stats.update({"K": 0, "E": 0, "Q_after_rehost": 0, "Q_first_ever_after_rehost": 0, "Q_stale_entry_same_kind": 0})
+    mangled = {}        # error names whose status message is not the error's text
+    lookup_names = set()
 
     for bi, b in enumerate(blocks):
         obs = obs_of[bi]
@@ -320,7 +490,10 @@ def run(ck):
         api_trace = {}      # api -> human-readable
         closed = False
         pending_local = {}
-        started = []        # (coq event, text) of the shards started so far, in start order
+        pending_e = {}
+        started = []        # (coq event, text) of the starts / stops so far, in execution order
+        inc = {}            # shard id -> number of times it has been started on this NodeHost (incarnation)
+        sim = {}            # facade object -> shard id -> (kind, incarnation): the entries a never-invalidated cache holds
         for k, ((text, meta), o) in enumerate(zip(b.lines, obs)):
             kind = meta.get("kind")
             if kind == "S":
@@ -331,15 +504,27 @@ def run(ck):
                     other_fail.append(("NodeHost reports another state machine type than the one started",
                                        {"kind": "executor-type", "block": b.describe(), "line": text, "obs": o}, False))
                 hosted[meta["shard"]] = meta["typ"]
+                inc[meta["shard"]] = inc.get(meta["shard"], 0) + 1
                 for a in api_events:
                     api_events[a].append("EStart %d %s" % (meta["shard"], TCOQ[meta["typ"]]))
                     api_trace[a].append("start %d %s" % (meta["shard"], TNAME[meta["typ"]]))
                 started.append(("EStart %d %s" % (meta["shard"], TCOQ[meta["typ"]]), "start %d %s" % (meta["shard"], TNAME[meta["typ"]])))
+            elif kind == "K":
+                stats["K"] += 1
+                if o[0] != "ok" or o[1] != "0":
+                    other_fail.append(("harness could not stop shard", {"kind": "executor-stop", "block": b.describe(), "line": text, "obs": o}, False))
+                    break
+                hosted.pop(meta["shard"], None)
+                for a in api_events:
+                    api_events[a].append("EStop %d" % meta["shard"])
+                    api_trace[a].append("stop %d" % meta["shard"])
+                started.append(("EStop %d" % meta["shard"], "stop %d" % meta["shard"]))
             elif text.startswith("A "):
                 a = text.split()[1]
                 api_events[a] = [e for (e, _) in started]
                 api_trace[a] = [t for (_, t) in started]
                 api_obs[a] = []
+                sim[a] = {}
             elif kind == "C":
                 closed = True
             elif kind == "Q":
@@ -360,6 +545,26 @@ def run(ck):
                 api_obs[a].append({"tracked": 0, "noop": 1, "err": 2}.get(okind, 3))
                 good = (okind == exp)
                 why = None
+                # the entry a never-invalidated cache holds for s (made by an earlier successful query for s through a)
+                entry = sim[a].get(s)
+                stale = entry is not None and (s not in hosted or entry[1] != inc.get(s))
+                if inc.get(s, 0) > 1 and s in hosted:
+                    stats["Q_after_rehost"] += 1
+                    if entry is None:
+                        stats["Q_first_ever_after_rehost"] += 1
+                    elif stale and good:
+                        stats["Q_stale_entry_same_kind"] += 1
+                if entry is None and s in hosted:
+                    sim[a][s] = (exp, inc.get(s))
+                if not good and stale and okind == stale_dictates(entry[0], hosted, s):
+                    cls = "rehost" if s in hosted else "stop"
+                    suspects[cls].append(((len(hosted), len(api_trace[a])), {
+                        "hosting_now": {str(x): TNAME[t] for x, t in sorted(hosted.items())},
+                        "facade_object_saw": list(api_trace[a]), "query": "GetSession(%d)" % s, "observed": " ".join(o)[:120],
+                        "required": exp, "entry_made_when_shard_was": entry[0],
+                        "verif_in": [t for (t, m) in b.lines[:k + 1] if t == "NH" or m.get("kind") in ("S", "K") or t == "A " + a or
+                                     (m.get("kind") == "Q" and m.get("api") == a)] + ["END"]}))
+                    continue
                 if not good:
                     if okind == "panic":
                         why = "GetSession(%d) crashes (Go panic: %s); shard %d is %s" % (
@@ -386,9 +591,11 @@ def run(ck):
                     else:
                         replay = {"kind": "monitor:kind", "hosting": {str(x): TNAME[t] for x, t in sorted(hosted.items())},
                                   "start_order": [x for x in b.order if x in hosted],
+                                  "incarnation_of_the_shard": inc.get(s, 0),
+                                  "asked_for_this_shard_before_through_this_object": entry is not None,
                                   "facade_object_saw": list(api_trace[a]), "failing_query": "GetSession(%d)" % s,
                                   "observed": " ".join(o), "required": exp,
-                                  "verif_in": [t for (t, m) in b.lines[:k + 1] if t == "NH" or m.get("kind") == "S" or t == "A " + a or
+                                  "verif_in": [t for (t, m) in b.lines[:k + 1] if t == "NH" or m.get("kind") in ("S", "K") or t == "A " + a or
                                                (m.get("kind") == "Q" and m.get("api") == a)] + ["END"]}
                         # (on the unrepaired loop the answer depends on dragonboat's map iteration order unless
                         # every hosted shard leads to the same wrong answer: prefer replays that always reproduce)
@@ -440,6 +647,50 @@ def run(ck):
                     if path == "f" and len(data) <= 80:
                         items.append(("rcase (LOk %s) 0 %s" % (hex_to_coq(exp), hex_to_coq(data)), ("R", b.describe(), text, o)))
                 ck.count_case("%s %s %s" % (b.describe(), text, o))
+            elif kind == "E":
+                stats["E"] += 1
+                if meta["path"] == "f":
+                    pending_e[(meta["shard"], meta["k"])] = (text, o)
+                    continue
+                ftext, fo = pending_e.pop((meta["shard"], meta["k"]), (None, None))
+                if fo is None:
+                    continue
+                lo = o
+                what = None
+                if lo[0] != "err" or len(lo) < 4:
+                    if lo[0] == "panic" and fo[0] == "panic":
+                        pass    # the local call crashes as well: nothing the facade adds
+                    else:
+                        other_fail.append(("executor problem: the local SyncRead did not return the state machine's error: %s" % " ".join(lo)[:100],
+                                           {"kind": "executor", "block": b.describe(), "call": text, "obs": lo}, False))
+                    continue
+                name, dyn, unchanged = lo[1], lo[2], lo[3]
+                lookup_names.add(name)
+                if fo[0] == "panic":
+                    what = ("Read through the facade crashes (Go panic: %s) where the local SyncRead returns the state machine's Lookup "
+                            "error %s (dynamic type %s): no status code for this error" % (" ".join(fo[1:])[:70], name, dyn))
+                elif fo[0] == "ok":
+                    what = "Read through the facade succeeds where the local SyncRead fails with %s (dynamic type %s)" % (name, dyn)
+                elif fo[0] == "err":
+                    code = int(fo[1])
+                    if fo[2] != "1" or not (1 <= code <= 16):
+                        what = "Read: the facade's error for the Lookup error %s (dynamic type %s) carries no defined status code: %s" % (name, dyn, " ".join(fo)[:80])
+                    elif code != expected_code(name):
+                        what = "Read: the local call fails with %s (dynamic type %s), the facade reports status code %d instead of %d" % (
+                            name, dyn, code, expected_code(name))
+                    elif len(fo) >= 5 and fo[-1] != "1" and unchanged == "1":
+                        mangled[name] = mangled.get(name, 0) + 1
+                    items.append(("rcase (LErr %s) %d []" % (err_coq(name, other_ix), code), ("E", b.describe(), ftext, fo, lo)))
+                else:
+                    other_fail.append(("executor problem: %s" % " ".join(fo)[:120], {"kind": "executor", "block": b.describe(), "call": ftext, "obs": fo}, False))
+                    continue
+                if what:
+                    other_fail.append((what, {"kind": "monitor:transparent-errors", "block": b.describe(), "facade_call": ftext,
+                                              "lookup_error": {"name": name, "dynamic_type": dyn, "index_in_vfErrAlphabet": meta["k"]},
+                                              "facade_obs": fo, "local_obs": lo,
+                                              "verif_in": ["NH"] + [t for (t, m) in b.lines[:k + 1] if m.get("kind") == "S" and m.get("shard") == meta["shard"]][:1]
+                                              + ["A T", ftext, text, "END"]}, True))
+                ck.count_case("E %s %s %s %s" % (TNAME.get(hosted.get(meta["shard"]), "?"), name, fo[:2], lo[:3]))
             elif kind == "X":
                 stats["X"] += 1
                 if meta.get("closed"):
@@ -479,7 +730,9 @@ def run(ck):
             starts = [e for e in evs if e.startswith("EStart")]
             qs = [e for e in evs if e.startswith("EQuery")]
             info = ("K", b.describe(), a, api_trace[a])
-            if evs == starts + qs:
+            if any(e.startswith("EStop") for e in evs):
+                term = "kcase_s %s %s" % (clist(evs), clist(api_obs[a]))
+            elif evs == starts + qs:
                 term = "kq %s %s %s" % (clist(["(%s,%d)" % (e.split()[1], {"Regular": 1, "Concurrent": 2, "OnDisk": 3}[e.split()[2]]) for e in starts]),
                                         clist([e.split()[1] for e in qs]), clist(api_obs[a]))
             else:
@@ -503,6 +756,18 @@ def run(ck):
         ck.violation(why, replay)
         if len(seen_why) >= 3:
             break
+
+    # ---- stale answers after a stop / re-host of a shard id the facade object had been asked for before (not a VIOLATION
+    # until the coordinator decides; the model reproduces them: FacadeRun.kcase_s, props/C19.v C19_ex_stale_after_rehost)
+    for cls, key in (("rehost", "suspect_stale_after_rehost"), ("stop", "suspect_stale_after_stop")):
+        lst = sorted(suspects[cls], key=lambda x: x[0])
+        seen_s = {}
+        for (_, d) in lst:
+            c = (d["entry_made_when_shard_was"], d["required"], d["observed"].split()[0])
+            seen_s.setdefault(c, d)
+        ck.cov[key] = [dict(d, n_in_this_run=sum(1 for (_, e) in lst if (e["entry_made_when_shard_was"], e["required"], e["observed"].split()[0]) == c))
+                       for c, d in seen_s.items()]
+        ck.cov[key + "_count"] = len(lst)
 
     # ---- session conversions
     tres = [res.get(base + 1 + i, [[None, "missing"]])[0][1:] for i in range(len(tvals))]
@@ -532,6 +797,8 @@ def run(ck):
     eline = base + len(tvals) + 1
     erows = res.get(eline, [])
     seen_codes = {}
+    dyn_types = set()
+    errs_panics = {}
     nil_ok = False
     go_codes = {}
     for f in erows:
@@ -543,7 +810,14 @@ def run(ck):
         elif f[0] == "ERR":
             name = f[1]
             ck.count_case("ERR " + name)
-            if f[2] in ("panic", "nilresult"):
+            dyn = f[-1] if (f[2] == "panic" or len(f) >= 8) else "?"
+            dyn_types.add(dyn)
+            if f[2] == "panic":
+                errs_panics.setdefault((dyn, " ".join(f[3:-1])[:70]), [])
+                if name not in errs_panics[(dyn, " ".join(f[3:-1])[:70])]:
+                    errs_panics[(dyn, " ".join(f[3:-1])[:70])].append(name)
+                continue
+            if f[2] == "nilresult":
                 other_fail.append(("grpcError(%s) %s" % (name, f[2]), {"kind": "monitor:codes", "error": name, "obs": f}, True))
                 continue
             c1, c2, st1, st2, same = int(f[2]), int(f[3]), f[4], f[5], f[6]
@@ -561,10 +835,18 @@ def run(ck):
                 other_fail.append(("error %s is mapped to different codes on two calls (%d, %d)" % (name, seen_codes[name], c1),
                                    {"kind": "monitor:codes", "error": name}, True))
             elif same != "1":
-                other_fail.append(("the status for %s does not carry the error's text" % name, {"kind": "monitor:codes", "error": name, "obs": f}, True))
+                if "ercent" in name:
+                    # texts containing '%': see the report (status.Errorf uses the error text as a format string); not
+                    # part of the property (the code is right), recorded in the evidence
+                    mangled[name] = mangled.get(name, 0) + 1
+                else:
+                    other_fail.append(("the status for %s does not carry the error's text" % name, {"kind": "monitor:codes", "error": name, "obs": f}, True))
             seen_codes[name] = c1
             items.append(("ecase %s %d" % (err_coq(name, other_ix), c1), ("ERR", name, c1)))
             items.append(("ecase %s %d" % (err_coq(name, other_ix), expc), ("TABLE (python table vs model)", name, expc)))
+    for (dyn, pan), names in sorted(errs_panics.items()):
+        other_fail.append(("grpcError(value of type %s) crashes (Go panic: %s): no status code for the errors %s" % (
+            dyn, pan, ", ".join(names)), {"kind": "monitor:codes", "errors": names, "dynamic_type": dyn, "panic": pan, "verif_in": ["ERRS"]}, True))
     if not nil_ok:
         other_fail.append(("grpcError(nil) is not nil", {"kind": "monitor:codes", "obs": erows[:1]}, True))
     want_codes = {"OK": 0, "Canceled": 1, "Unknown": 2, "InvalidArgument": 3, "DeadlineExceeded": 4, "NotFound": 5, "Unavailable": 14}
@@ -572,7 +854,19 @@ def run(ck):
         other_fail.append(("numeric gRPC codes differ from the model's", {"kind": "codes-enum", "go": go_codes, "model": want_codes}, False))
     if len(seen_codes) < 30:
         other_fail.append(("error table executor returned only %d error values" % len(seen_codes), {"kind": "executor"}, False))
+    n_alpha = len([n for n in seen_codes if n.startswith("Dyn:")]) + 6
+    if n_alpha != N_ALPHABET:
+        other_fail.append(("the executor's error alphabet has %d values, the check assumes %d" % (n_alpha, N_ALPHABET), {"kind": "executor"}, False))
+    missing = [n for n in seen_codes if n.startswith("Dyn:") and n not in lookup_names]
+    if missing:
+        other_fail.append(("error values never returned by a state machine's Lookup in this run: %s" % missing[:5], {"kind": "executor"}, False))
     ck.cov["error_values"] = len(seen_codes)
+    ck.cov["error_dynamic_types"] = sorted(dyn_types)
+    ck.cov["lookup_error_values_through_read"] = len(lookup_names)
+    if mangled:
+        ck.cov["note_status_message_not_error_text"] = {
+            "what": "the status CODE is the table's, but the status message differs from err.Error() for error texts containing '%' "
+                    "(grpcError passes the text to status.Errorf as the format string)", "errors": sorted(mangled)}
     # ---- through a real gRPC listener
     wire_notes = []
     for wi, (sh, typ) in enumerate([(5, 1), (6, 3), (7, 2)]):
